@@ -3,6 +3,7 @@ package props
 import (
 	"bytes"
 	"fmt"
+	"strings"
 	"testing"
 	"unicode/utf8"
 
@@ -283,6 +284,39 @@ func TestC06(t *testing.T) {
 							if !run("late-unicode-escape", b) {
 								break late
 							}
+						}
+					}
+				}
+			}
+		}
+		// 5c. runs of directly adjacent escapes of one kind, then a surrogate pair (or a lone
+		// half, or a plain escape), at every run length: decoders that batch escapes must not
+		// split a pair at a batch boundary, whatever the batch size
+		if e.enumStage("escape-runs", "N adjacent escapes (N in 0..140, 254..258, 510..514, 1022..1026, 4094..4098) of 6 unit kinds + one of 5 closers (pair, high half, low half, \\n, none) + tail", true) {
+			units := []string{`\u00e9`, `\u0041`, `\n`, `\ud83d\ude00`, `\ud800`, `\\`}
+			closers := []string{`\ud83d\ude00`, `\ud83d`, `\ude00`, `\n`, ``}
+			var ns []int
+			for n := 0; n <= 140; n++ {
+				ns = append(ns, n)
+			}
+			for _, base := range []int{256, 512, 1024, 4096} {
+				for n := base - 2; n <= base+2; n++ {
+					ns = append(ns, n)
+				}
+			}
+			idx := 0
+		runs:
+			for _, n := range ns {
+				for _, u := range units {
+					idx++
+					if !e.cfg.Mine(idx) {
+						continue
+					}
+					for ci, cl := range closers {
+						b := append([]byte{'"'}, strings.Repeat(u, n)...)
+						b = append(append(b, cl...), []string{`"`, `x"`, `"tail`}[(n+ci)%3]...)
+						if !run("escape-runs", b) {
+							break runs
 						}
 					}
 				}
